@@ -245,8 +245,6 @@ def _gen_main(rng, tier):
 
 def gen(rng, tier):
     yield from _gen_main(rng, tier)
-    if tier == "thorough":
-        yield from _ws.rem(rng)
     yield from _grid(rng, tier)
     yield from _huge(rng, tier)
     yield from _exh8(rng, tier)
